@@ -628,6 +628,13 @@ pub fn worker_main() {
     crate::pool::serve(|pv| {
         let seed = pv["seed"].as_u64().unwrap_or(1);
         move |task: &Value| -> Value {
+            if task["wire"].as_bool().unwrap_or(false) {
+                let r = std::panic::catch_unwind(std::panic::AssertUnwindSafe(|| wire_session(seed)));
+                return match r {
+                    Ok((f, n)) => json!({"requests": n, "findings": f.iter().map(|(c, m)| json!({"class": c, "msg": m})).collect::<Vec<_>>()}),
+                    Err(e) => json!({"error": format!("bin worker panicked: {}", crate::sut::panic_msg(e))}),
+                };
+            }
             let l = Launch::from_json(task);
             let r = std::panic::catch_unwind(std::panic::AssertUnwindSafe(|| session(&l, seed)));
             match r {
@@ -636,4 +643,131 @@ pub fn worker_main() {
             }
         }
     });
+}
+
+// ---------------------------------------------------------------------------------------------
+// wire-level grammar (C15): requests that only exist on a real socket
+
+/// Send raw bytes, optionally half-close, and read whatever comes back (None = no answer).
+fn raw_exchange(addr: &str, bytes: &[u8], half_close: bool, read: bool) -> Option<RawHttp> {
+    let sa = addr.to_socket_addrs().ok()?.next()?;
+    let mut s = TcpStream::connect_timeout(&sa, Duration::from_secs(3)).ok()?;
+    s.set_read_timeout(Some(Duration::from_millis(1500))).ok();
+    s.write_all(bytes).ok()?;
+    s.flush().ok();
+    if half_close {
+        let _ = s.shutdown(std::net::Shutdown::Write);
+    }
+    if !read {
+        // give the server a moment to see the bytes before the connection goes away
+        std::thread::sleep(Duration::from_millis(150));
+        return None;
+    }
+    let mut buf = vec![];
+    let mut tmp = [0u8; 65536];
+    loop {
+        match s.read(&mut tmp) {
+            Ok(0) => break,
+            Ok(n) => buf.extend_from_slice(&tmp[..n]),
+            Err(_) => break,
+        }
+        if buf.windows(4).any(|w| w == b"\r\n\r\n") && buf.len() > 12 {
+            // headers complete; bodies of the answers we care about are tiny
+            std::thread::sleep(Duration::from_millis(50));
+        }
+    }
+    let sep = buf.windows(4).position(|w| w == b"\r\n\r\n")?;
+    let head = String::from_utf8_lossy(&buf[..sep]).to_string();
+    let mut lines = head.split("\r\n");
+    let status: u16 = lines.next()?.split(' ').nth(1)?.parse().ok()?;
+    let mut hs = vec![];
+    for l in lines {
+        if let Some((k, v)) = l.split_once(':') {
+            hs.push((k.trim().to_ascii_lowercase(), v.trim().as_bytes().to_vec()));
+        }
+    }
+    Some(RawHttp { status, headers: hs, body: buf[sep + 4..].to_vec() })
+}
+
+/// Uploads whose body never completes on the wire (declared length not delivered, chunked body
+/// cut short or with broken framing): each must be refused if it is answered at all, and must
+/// store nothing. Returns (findings, requests sent).
+pub fn wire_session(seed: u64) -> (Vec<(String, String)>, u64) {
+    let mut findings: Vec<(String, String)> = vec![];
+    let mut nreq = 0u64;
+    let scratch = Scratch::new("wire");
+    let dir = scratch.path().join("data");
+    let l = Launch { listen: vec!["v4".into()], listen_via: Via::Flag, data_via: Via::Flag, allow: 0, allow_via: Via::Flag, versions: None, versions_via: Via::Flag, days: None, days_via: Via::Flag };
+    let ids = Ids { clients: (0..3).map(|i| det_uuid(seed, 31, i)).collect() };
+    let mut run = None;
+    let mut addr = String::new();
+    for _ in 0..4 {
+        addr = format!("127.0.0.1:{}", free_port(false));
+        if let Ok(r) = start(&l, &dir, &[addr.clone()], &ids) {
+            run = Some(r);
+            break;
+        }
+    }
+    let Some(_run) = run else {
+        return (vec![("machinery".into(), "the server does not start".into())], 0);
+    };
+    let c = ids.clients[0];
+    // a client with one version and a snapshot on it
+    let v1 = match http(&addr, "POST", &format!("/v1/client/add-version/{}", Uuid::nil()), &[("X-Client-Id", c.to_string()), ("Content-Type", HS_CT.to_string())], Some(b"first"), false) {
+        Ok(r) if r.status == 200 => r.header_str("X-Version-Id").and_then(|s| Uuid::parse_str(&s).ok()).unwrap_or_default(),
+        other => return (vec![("machinery".into(), format!("setup request failed: {:?}", other.map(|r| r.status)))], 1),
+    };
+    let _ = http(&addr, "POST", &format!("/v1/client/add-snapshot/{v1}"), &[("X-Client-Id", c.to_string()), ("Content-Type", SNAP_CT.to_string())], Some(b"snap-1"), false);
+    let mut v1 = v1;
+    let mut snap_now: Vec<u8> = b"snap-1".to_vec();
+    let partial = vec![b'P'; 400];
+    // (key, label, bytes after the head, framing header)
+    let mut cases: Vec<(&str, String, &str, Vec<u8>, String)> = vec![];
+    for route in ["add-version", "add-snapshot"] {
+        cases.push(("content-length-short", format!("{route}: Content-Length 1000, 400 bytes delivered"), route, partial.clone(), "Content-Length: 1000".into()));
+        cases.push(("content-length-short", format!("{route}: Content-Length 1000, 1 byte delivered"), route, b"x".to_vec(), "Content-Length: 1000".into()));
+        cases.push(("content-length-short", format!("{route}: Content-Length 100000000, 400 bytes delivered"), route, partial.clone(), "Content-Length: 100000000".into()));
+        cases.push(("chunked-no-terminating-chunk", format!("{route}: chunked, one complete chunk, no terminating chunk"), route, b"190\r\n".iter().chain(partial.iter()).chain(b"\r\n".iter()).cloned().collect(), "Transfer-Encoding: chunked".into()));
+        cases.push(("chunked-chunk-cut-short", format!("{route}: chunked, chunk cut short"), route, b"3e8\r\n".iter().chain(partial.iter()).cloned().collect(), "Transfer-Encoding: chunked".into()));
+        cases.push(("chunked-broken-size-line", format!("{route}: chunked, broken chunk-size line after a good chunk"), route, b"190\r\n".iter().chain(partial.iter()).chain(b"\r\nNOT-A-SIZE\r\n".iter()).cloned().collect(), "Transfer-Encoding: chunked".into()));
+    }
+    for (key, label, route, body, framing) in cases {
+        for (how, half_close, read) in [("the client stops sending (half-close) and waits for the answer", true, true), ("the connection is closed", false, false)] {
+            nreq += 1;
+            let ct = if route == "add-version" { HS_CT } else { SNAP_CT };
+            let mut bytes = format!("POST /v1/client/{route}/{v1} HTTP/1.1\r\nHost: {addr}\r\nX-Client-Id: {c}\r\nContent-Type: {ct}\r\n{framing}\r\n\r\n").into_bytes();
+            bytes.extend_from_slice(&body);
+            let resp = raw_exchange(&addr, &bytes, half_close, read);
+            if let Some(r) = &resp {
+                if r.status >= 500 {
+                    findings.push((format!("wire-5xx|{key}|{route}"), format!("{label}; {how}: answered {}", r.status)));
+                } else if (200..300).contains(&r.status) {
+                    findings.push((format!("incomplete-upload-acknowledged|{key}|{route}"), format!("{label}; {how}: the upload never completed, yet it was acknowledged with {}", r.status)));
+                }
+            }
+            // nothing may have been stored
+            nreq += 2;
+            match http(&addr, "GET", &format!("/v1/client/get-child-version/{v1}"), &[("X-Client-Id", c.to_string())], None, false) {
+                Ok(r) if r.status == 404 => {}
+                Ok(r) if r.status == 200 => {
+                    findings.push((format!("incomplete-upload-stored|{key}|{route}"), format!("{label}; {how}: a version of {} bytes was stored although the body never completed", r.body.len())));
+                    // the chain has moved: go on from the new latest version
+                    if let Some(id) = r.header_str("X-Version-Id").and_then(|s| Uuid::parse_str(&s).ok()) {
+                        v1 = id;
+                    }
+                }
+                Ok(r) => findings.push((format!("wire-state|{key}|{route}"), format!("{label}; {how}: GetChildVersion afterwards answered {}", r.status))),
+                Err(e) => findings.push((format!("wire-no-answer|{key}|{route}"), format!("{label}; {how}: the server stopped answering: {e}"))),
+            }
+            match http(&addr, "GET", "/v1/client/snapshot", &[("X-Client-Id", c.to_string())], None, false) {
+                Ok(r) if r.status == 200 && r.body == snap_now => {}
+                Ok(r) => {
+                    findings.push((format!("incomplete-upload-stored|{key}|{route}"), format!("{label}; {how}: the stored snapshot changed (status {}, {} bytes) although the body never completed", r.status, r.body.len())));
+                    snap_now = r.body.clone();
+                }
+                Err(e) => findings.push((format!("wire-no-answer|{key}|{route}"), format!("{label}; {how}: the server stopped answering: {e}"))),
+            }
+        }
+    }
+    (findings, nreq)
 }
